@@ -1,7 +1,7 @@
 //! C06: pull pipelines built from a textual description, run on the real crate.
 //!
 //! `(src N)` items 1..=N · `(src N A)` N items from A · `(inf A)` unbounded from A · `(map add|mul K P)` · `(filter mod M R P)` ·
-//! `(scan lin B SEED P)` · `(take N P)` · `(skip N P)` · `(concat P Q)` · `(flatmap rep|tri K P)` (`rep K`: a ↦ K items from a;
+//! `(scan lin B SEED P)` · `(take N P)` · `(skip N P)` · `(concat P Q R …)` (one n-ary concat!) · `(flatmap rep|tri K P)` (`rep K`: a ↦ K items from a;
 //! `tri K`: a ↦ take(K) of items 1..=(a mod 4)).
 //! Output: `out=[…] done=<bool> nexts=<iterator advances> foreach=[…]` — `out`/`done` seen by a for_each-like probe (pull on the
 //! greeting and after every datum), `foreach` the arguments of a real `for_each(f)` on a second run of the same pipeline.
@@ -106,8 +106,12 @@ fn build(sx: &Sx, n: &Arc<AtomicUsize>) -> Option<Src> {
             Arc::new(skip(k)(build(v.get(2)?, n)?))
         },
         "concat" => {
-            let (p, q) = (build(v.get(1)?, n)?, build(v.get(2)?, n)?);
-            Arc::new(callbag::concat!(p, q))
+            // n-ary: ONE concat! over all members (not nested binary ones)
+            let members = v[1..].iter().map(|m| build(m, n)).collect::<Option<Vec<Src>>>()?;
+            if members.len() < 2 {
+                return None;
+            }
+            Arc::new(callbag::concat(members.into_boxed_slice()))
         },
         "flatmap" => {
             let kind = atom(v.get(1)?)?.to_string();
